@@ -128,6 +128,50 @@ theorem evaluate_by_name_eq_evaluate_by_addr (sem : Sem) (fuel : Nat) (m : MStat
     unfold evaluate
     rw [this _ rfl]
 
+/-- The second spelling of an address, an `XLCell` object: setting through it is setting through its address
+    (for an address that is not itself a defined name — an `XLCell` is never looked up among the names). -/
+theorem set_by_cell_eq_set_by_addr (m : MState) (a : Addr) (v : V) (ha : assoc a m.names = none) :
+    setCellValueH m (.cell a) v = m.setCellValue a v := by
+  have hr : m.resolve a = a := by simp [MState.resolve, ha]
+  rw [setCellValue_eq, hr]
+  show (match m.cell? a with
+        | some _ => ({ m with cells := assocUpdate a (fun c => { c with value := v }) m.cells } : MState)
+        | none => ({ m with cells := m.cells ++ [(a, ({ value := v, formula := none } : Cell))] } : MState)) = _
+  cases m.cell? a <;> rfl
+
+theorem get_by_cell_eq_get_by_addr (m : MState) (a : Addr) (ha : assoc a m.names = none) :
+    getCellValueH m (.cell a) = m.getCellValue a := by
+  have hr : m.resolve a = a := by simp [MState.resolve, ha]
+  show (match m.cell? a with | some c => c.value | none => V.s (.num (.int 0))) = _
+  unfold MState.getCellValue
+  rw [hr]
+  cases m.cell? a <;> rfl
+
+theorem assoc_append_new {β} (a : Addr) (x : β) (l : List (Addr × β)) (h : assoc a l = none) :
+    assoc a (l ++ [(a, x)]) = some x := by
+  induction l with
+  | nil => simp [assoc]
+  | cons p rest ih =>
+    obtain ⟨k, c⟩ := p
+    by_cases hk : a = k
+    · simp [assoc, hk] at h
+    · simp only [assoc, hk, if_false] at h
+      simp only [List.cons_append, assoc, hk, if_false]
+      exact ih h
+
+/-- … in particular a cell the model does not hold yet is CREATED with the value, and read back (D0402) -/
+theorem set_by_cell_creates (m : MState) (a : Addr) (v : V) (hc : m.cell? a = none) :
+    getCellValueH (setCellValueH m (.cell a) v) (.cell a) = v := by
+  have h1 : setCellValueH m (.cell a) v = { m with cells := m.cells ++ [(a, { value := v, formula := none })] } := by
+    show (match m.cell? a with
+          | some _ => ({ m with cells := assocUpdate a (fun c => { c with value := v }) m.cells } : MState)
+          | none => ({ m with cells := m.cells ++ [(a, ({ value := v, formula := none } : Cell))] } : MState)) = _
+    rw [hc]
+  rw [h1]
+  show (match assoc a (m.cells ++ [(a, ({ value := v, formula := none } : Cell))]) with
+        | some c => c.value | none => V.s (.num (.int 0))) = v
+  rw [assoc_append_new a _ m.cells hc]
+
 /-- a name bound to a cell, the hypotheses of the three theorems above -/
 example : ∃ (m : MState) (n a : Addr), assoc n m.names = some a ∧ assoc a m.names = none :=
   ⟨{ cells := [("S!A1".toList, { value := .s (.num (.int 1)), formula := none })], ranges := [],
